@@ -23,6 +23,11 @@ def run(tier: str) -> int:
     sim = calcheck.sample_scripts(sim, 60 if tier == "quick" else 800, rng)
     scripts += [calcheck.to_script(o, base2, seed=rng.randrange(1, 10**6)) for o in sim]
     scripts += calcheck.builtin_scripts(7 if tier == "quick" else 42, rng)
+    # several workers, run times that depend on the parameters (rows complete out of order): the stored series must still be those
+    # of their own vector - the content of every series is decoded and compared at the next idle event
+    wide = {**base, "lineup": [{"cls": "A", "bs": 4}, {"cls": "B", "bs": 3}], "E": 2}
+    for k in range(6 if tier == "quick" else 40):
+        scripts.append(calcheck.to_script([["call", 2], ["call", 1]], wide, seed=2 * rng.randrange(1, 10**5), njobs=rng.choice([2, 4])))
     traces = calcheck.execute(scripts)
     chk.evaluations = len(traces)
     for t in traces[:3]:
